@@ -3,6 +3,11 @@
   accounting of the two statement kinds that implement `ExecutableQuery` (`Query.attempt`, `Batch.attempt`,
   `queryMetrics.attempt` in /repo/session.go) and of the built-in retry policies' decision functions in
   /repo/policies.go.
+
+  The hosts' usability is an ENVIRONMENT that may change during one execution: `us k h` = host `h` is usable
+  (HostInfo present and up, pool registered, Pick() returns a connection) when `k` requests have been sent.
+  The loop head re-examines the selected host every time round, so a `Retry` on a host that has gone walks on
+  along the iterator, and the error returned when nothing usable is left is the one recorded last.
 -/
 namespace Executor
 
